@@ -54,6 +54,7 @@ func (b *Bus) collect() {
 			activeListeners = append(activeListeners, l)
 		}
 	}
+	verifhook.Yield("bus.collect.scanned")
 
 	b.listeners = activeListeners
 }
